@@ -115,7 +115,23 @@ static int prim_cbc(const pc_t *pc, char *human, char *what)
     snprintf(human, 160, "%s-cbc %s blocks=%d part=%d/%d/%d inoff=%d outoff=%d", pc->g == 3 ? "3des" : pc->g == 0 ? "aes128" : pc->g == 1 ? "aes192" : "aes256",
         pc->y ? "dec" : "enc", pc->n, pc->m, pc->a, pc->b, pc->i, pc->o);
     out = pc->o < 0 ? in : xout((size_t) nb, pc->o);
-    ref_cipher(pc->g == 3 ? RC_DES3_CBC : RC_AES128_CBC + pc->g, !pc->y, keyb, ivb, msg, (size_t) nb, exp);
+    {
+        static int c_g = -1, c_y, c_k, c_n;
+        static const uch *c_msg;
+        static uch *c_exp;
+        static size_t c_cap;
+        if (c_g != pc->g || c_y != pc->y || c_k != pc->k || c_n != pc->n || c_msg != msg)
+        {
+            if (c_cap < (size_t) nb + 1)
+            {
+                c_cap = (size_t) nb + 1;
+                c_exp = realloc(c_exp, c_cap);
+            }
+            ref_cipher(pc->g == 3 ? RC_DES3_CBC : RC_AES128_CBC + pc->g, !pc->y, keyb, ivb, msg, (size_t) nb, c_exp);
+            c_g = pc->g; c_y = pc->y; c_k = pc->k; c_n = pc->n; c_msg = msg;
+        }
+        memcpy(exp, c_exp, (size_t) nb);
+    }
     vhex("key", keyb, (size_t) kl);
     vhex("iv", ivb, (size_t) bl);
     vhex("input", msg, (size_t) nb);
@@ -193,7 +209,24 @@ static int prim_gcm(const pc_t *pc, char *human, char *what)
     psAesGcm_t *ctx = malloc(sizeof(*ctx));
     snprintf(human, 160, "aes%d-gcm %s len=%d aad=%d tag=%d part=%d/%d/%d inoff=%d outoff=%d%s", kl * 8, pc->y ? "tagless-dec" : "enc", pc->n,
         pc->x, pc->z, pc->m, pc->a, pc->b, pc->i, pc->o, reuse ? " ctx-reuse" : "");
-    ref_seal(RC_AES128_GCM + pc->g, key.p, iv.p, aad.p, (size_t) pc->x, msg, (size_t) pc->n, ect, etag);
+    {
+        static int c_g = -1, c_k, c_x, c_n;
+        static const uch *c_msg;
+        static uch *c_ct, c_tag[16];
+        static size_t c_cap;
+        if (c_g != pc->g || c_k != pc->k || c_x != pc->x || c_n != pc->n || c_msg != msg)
+        {
+            if (c_cap < (size_t) pc->n + 1)
+            {
+                c_cap = (size_t) pc->n + 1;
+                c_ct = realloc(c_ct, c_cap);
+            }
+            ref_seal(RC_AES128_GCM + pc->g, key.p, iv.p, aad.p, (size_t) pc->x, msg, (size_t) pc->n, c_ct, c_tag);
+            c_g = pc->g; c_k = pc->k; c_x = pc->x; c_n = pc->n; c_msg = msg;
+        }
+        memcpy(ect, c_ct, (size_t) pc->n);
+        memcpy(etag, c_tag, 16);
+    }
     /* y=0: input = plaintext, expected output = ct.  y=1: input = ct, expected output = plaintext */
     in = xdup(pc->y ? ect : msg, (size_t) pc->n, pc->i);
     out = pc->o < 0 ? in : xout((size_t) pc->n, pc->o);
